@@ -1305,6 +1305,9 @@ class ParameterGrid(object):
             raise ValueError(
                 'The maximal number of decimals is 16! Maybe you should '
                 'consider log-space!?')
+        if decimals < 0:
+            raise ValueError(
+                'The number of decimals must not be negative!')
 
         self.name = name
         self._decimals = decimals
